@@ -230,6 +230,12 @@ class Resolver:
 
     def writers_of(self, attr: str):
         """qualname -> [store nodes] across the package."""
+        # a store to an attribute whose name is computed (`setattr(obj, name, v)`) may be a store to this one
+        for q, fn in self.repo.functions.items():
+            for c in walk_no_nested(fn):
+                if isinstance(c, ast.Call) and isinstance(c.func, ast.Name) and c.func.id == "setattr" and len(c.args) == 3 \
+                        and not (isinstance(c.args[1], ast.Constant) and isinstance(c.args[1].value, str)):
+                    raise AnalysisError(f"{q} stores to an attribute chosen at run time (`{unparse(c)[:60]}`): who writes `{attr}` is not visible")
         out = {}
         for q in self.repo.functions:
             w = self.attr_writes(q, attr)
@@ -239,6 +245,13 @@ class Resolver:
 
     def call_sites(self, target_qual: str):
         """All call sites in the package resolving to target_qual: [(caller qual, call)]."""
+        # a call through a name computed at run time (`getattr(obj, name)(...)`) may be a call of this function
+        short_ = target_qual.split(".")[-1]
+        for q, fn in self.repo.functions.items():
+            for c in walk_no_nested(fn):
+                if isinstance(c, ast.Call) and isinstance(c.func, ast.Call) and isinstance(c.func.func, ast.Name) and c.func.func.id == "getattr" and len(c.func.args) >= 2 \
+                        and not (isinstance(c.func.args[1], ast.Constant) and isinstance(c.func.args[1].value, str)):
+                    raise AnalysisError(f"{q} calls a method chosen at run time (`{unparse(c.func)[:60]}`): the callers of {short_} are not visible")
         out = []
         for q in self.repo.functions:
             for call, (kind, name) in self.callees(q):
